@@ -79,7 +79,7 @@ class C10(P.Property):
                     st_["burst"] = mk(rng.choice(["config", "upload", "upload", "search"]))
                 steps.append(st_)
             elif k == "reconnect":
-                steps.append({"do": k, "gap": rng.choice([0, 0.5, 1.5]), "abort": rng.random() < 0.3})
+                steps.append({"do": k, "gap": rng.choice([0, 0.5, 1.5, 0, 0.5, 1.5, 30]), "abort": rng.random() < 0.3})
             elif k == "foreign":
                 steps.append({"do": k, "m": rng.choice(["config", "upload", "search"])})
             else:
